@@ -1152,6 +1152,41 @@ def _validated_memo_return(prog, fn, ret, tparam, val_tests) -> bool:
     return False
 
 
+def rule_arity_validated(ctx, rep: Report, rid="V6"):
+    """InstantiatedClass.__init__ rejects an instantiation whose number of arguments differs from the template's number
+    of parameters: the assertion compares len(<template>.typenames) with the length of the *instantiations handed to
+    the constructor* - not with another attribute of the template (which has one list per parameter by construction,
+    so that comparison can never fail and `typedef Pair<double,int,int> P;` would be accepted)."""
+    prog = ctx.prog
+    ci = prog.cls("InstantiatedClass")
+    fn = prog.method("InstantiatedClass", "__init__")
+    ps = func_params(fn)
+    inst_p = next((p for p in ps if p == "instantiations"), ps[2] if len(ps) > 2 else None)
+    orig_p = ps[1]
+    hits = []
+    for a in walk_no_nested(fn):
+        if not (isinstance(a, ast.Assert) and isinstance(a.test, ast.Compare) and len(a.test.ops) == 1 and isinstance(a.test.ops[0], ast.Eq)):
+            continue
+        sides = [a.test.left, a.test.comparators[0]]
+        lens = [inline_locals(fn, x.args[0]) for x in sides if isinstance(x, ast.Call) and unparse(x.func) == "len" and len(x.args) == 1]
+        if len(lens) != 2:
+            continue
+        # `X if <template> else []` under the same `if <template>:` is X
+        lens = [x.body if isinstance(x, ast.IfExp) and isinstance(x.orelse, (ast.List, ast.Tuple)) and not x.orelse.elts else x for x in lens]
+        lens = [inline_locals(fn, x) for x in lens]
+        txt = sorted(unparse(x).replace("self.original", orig_p) for x in lens)
+        hits.append((a, txt))
+    want = sorted([inst_p, f"{orig_p}.template.typenames"])
+    good = [h for h in hits if h[1] == want]
+    rep.add(rid, "validation:InstantiatedClass.__init__:number of template arguments equals number of template parameters", bool(good),
+            f"length comparisons asserted: {[h[1] for h in hits]}; wanted len({want[0]}) == len({want[1]}): a typedef / instantiation "
+            f"with a surplus or missing template argument is accepted and half-used", f"{ci.mod.rel}:{fn.lineno}")
+    for a, _ in good:
+        gs = [t for t, pol in guards_of(a, fn, include_exits=False) if pol]
+        rep.add(rid, "validation:InstantiatedClass.__init__:arity check applies to every templated class",
+                all("template" in g for g in gs) and len(gs) <= 1, f"guards {gs}", f"{ci.mod.rel}:{a.lineno}", nontrivial=False)
+
+
 def rule_lookup_validated(ctx, rep: Report, rid="V6"):
     """Namespace.find_class_or_function (the resolution of a typedef's target): every result it returns has
     passed the 'exists' and the 'is unique' rejection, and the candidates are selected by the typename's
